@@ -164,6 +164,19 @@ func C06(r *core.Run) {
 		cases = append(cases, c06Case{ID: id, BodyLen: []int{10, 3000, 65536, 10, 5000, 1 << 20}[i], Chunks: 1 + i%3, VMID: i%2 == 0,
 			Attempts: []c06Fault{{Kind: kind, At: []int{-1, 0, 100, -1, -1, 3000}[i]}, {Kind: "ok", At: -1}}})
 	}
+	// a front end that answers the upload with a 307/308 redirect, early (while the response is still streaming), late, and
+	// alternating with 5xx replies
+	okF := c06Fault{Kind: "ok", At: -1}
+	for i, at := range []int{0, 100, -1, 3000, 0, 100} {
+		kind := []string{"e307", "e308"}[i%2]
+		id := fmt.Sprintf("s%d-%d", r.Seed, len(cases))
+		pat := []c06Fault{{Kind: kind, At: at, KeepOpen: i%3 == 1}, okF}
+		if i >= 4 {
+			e5 := c06Fault{Kind: "e5xx", At: at}
+			pat = []c06Fault{{Kind: kind, At: at}, e5, {Kind: kind, At: at}, e5, {Kind: kind, At: at}, e5, okF}
+		}
+		cases = append(cases, c06Case{ID: id, BodyLen: []int{3000, 65536, 10, 5000, 2000, 3900}[i], Chunks: 2 + i%3, DelayMs: []int{20, 5, 0, 10, 20, 5}[i], Attempts: pat})
+	}
 	// an early 5xx with a reply body from a proxy that then stops reading without closing, while a response far larger
 	// than the socket buffers is streaming: the handler must still be released
 	for i, at := range []int{0, 3000, 100, 70000} {
